@@ -166,16 +166,17 @@ theorem armStep_cases {a0 : Arm} (hk : HK) (x : FCfg) (h : ArmOk a0 x) :
 def UpTo (y y' : FCfg) : Prop := y'.l = y.l ∧ y'.arm = y.arm ∧ y'.rep = y.rep
 
 /-- case analysis of a hook call.  `x'` is the configuration handed to the base implementation: `x` with the armed fault advanced
-(and another value of the call counter). -/
+(and another value of the call counter); an exception leaves the configuration the base implementation reached, up to the call
+counter (which is put back). -/
 theorem hookF_cases {a0 : Arm} (hk : HK) (base : FCfg → Res) (x : FCfg) (h : ArmOk a0 x) :
     (a0.hk = hk ∧ a0.after = false ∧ x.fired = false ∧ x.arm ≠ none ∧
       ∃ y, hookF hk base x = (y, some faultExc) ∧ y.l = x.l ∧ y.fired = true ∧ y.arm = none ∧ y.rep = x.rep) ∨
     (∃ x', x'.l = x.l ∧ x'.fired = x.fired ∧ x'.rep = x.rep ∧ ArmOk a0 x' ∧ (x.arm = none → x'.arm = none) ∧
       ((a0.hk = hk ∧ a0.after = true ∧ x.fired = false ∧ x.arm ≠ none ∧ x'.arm = none ∧
-          ((∃ y e, base x' = (y, some e) ∧ hookF hk base x = (y, some e)) ∨
+          ((∃ y y' e, base x' = (y, some e) ∧ hookF hk base x = (y', some e) ∧ UpTo y y' ∧ y'.fired = y.fired) ∨
            (∃ y y', base x' = (y, none) ∧ hookF hk base x = (y', some faultExc) ∧ y'.l = y.l ∧ y'.rep = y.rep ∧
              y'.arm = none ∧ y'.fired = true))) ∨
-       ((∃ y e, base x' = (y, some e) ∧ hookF hk base x = (y, some e)) ∨
+       ((∃ y y' e, base x' = (y, some e) ∧ hookF hk base x = (y', some e) ∧ UpTo y y' ∧ y'.fired = y.fired) ∨
         (∃ y y' e, base x' = (y, none) ∧ hookF hk base x = (y', e) ∧ (e = none ∨ e = some .assertion) ∧ UpTo y y' ∧
           y'.fired = y.fired ∧ (y.called = x'.called → e = none ∧ y'.called = x.called))))) := by
   rcases armStep_cases hk x h with ⟨hp, h2, h3⟩ | ⟨hhk, hnf, hxa, harm, hv⟩
@@ -190,7 +191,7 @@ theorem hookF_cases {a0 : Arm} (hk : HK) (base : FCfg → Res) (x : FCfg) (h : A
       cases hb : base { x with called := x.called + 1 - 1, arm := (armStep HK.onTerminated x.arm).2 } with
       | mk y e =>
         cases e with
-        | some e => left; exact ⟨y, e, rfl, rfl⟩
+        | some e => left; exact ⟨y, { y with called := x.called }, e, rfl, rfl, ⟨rfl, rfl, rfl⟩, rfl⟩
         | none =>
           right
           by_cases hc : y.called = x.called
@@ -203,7 +204,7 @@ theorem hookF_cases {a0 : Arm} (hk : HK) (base : FCfg → Res) (x : FCfg) (h : A
       cases hb : base { x with called := x.called + 1, arm := (armStep hk x.arm).2 } with
       | mk y e =>
         cases e with
-        | some e => left; exact ⟨y, e, rfl, rfl⟩
+        | some e => left; exact ⟨y, { y with called := x.called }, e, rfl, rfl, ⟨rfl, rfl, rfl⟩, rfl⟩
         | none =>
           right
           by_cases hc : y.called - 1 = x.called
@@ -216,7 +217,7 @@ theorem hookF_cases {a0 : Arm} (hk : HK) (base : FCfg → Res) (x : FCfg) (h : A
     rcases hv with ⟨hb4, haf⟩ | ⟨ha4, haf⟩
     · -- before
       left
-      refine ⟨hhk, haf, hnf, hxa, { x with called := x.called + 1, arm := (armStep hk x.arm).2, fired := true }, ?_, rfl, rfl, harm, rfl⟩
+      refine ⟨hhk, haf, hnf, hxa, { x with called := x.called, arm := (armStep hk x.arm).2, fired := true }, ?_, rfl, rfl, harm, rfl⟩
       unfold hookF; simp only [hb4]
     · -- after
       right
@@ -229,8 +230,8 @@ theorem hookF_cases {a0 : Arm} (hk : HK) (base : FCfg → Res) (x : FCfg) (h : A
         cases hb : base { x with called := x.called + 1 - 1, arm := (armStep HK.onTerminated x.arm).2 } with
         | mk y e =>
           cases e with
-          | some e => left; exact ⟨y, e, rfl, rfl⟩
-          | none => right; exact ⟨y, { y with arm := none, fired := true }, rfl, rfl, rfl, rfl, rfl, rfl⟩
+          | some e => left; exact ⟨y, { y with called := x.called }, e, rfl, rfl, ⟨rfl, rfl, rfl⟩, rfl⟩
+          | none => right; exact ⟨y, { y with called := x.called, arm := none, fired := true }, rfl, rfl, rfl, rfl, rfl, rfl⟩
       · refine ⟨{ x with called := x.called + 1, arm := (armStep hk x.arm).2 }, rfl, rfl, rfl, hao _, fun _ => harm,
           Or.inl ⟨hhk, haf, hnf, hxa, harm, ?_⟩⟩
         unfold hookF supF
@@ -238,8 +239,8 @@ theorem hookF_cases {a0 : Arm} (hk : HK) (base : FCfg → Res) (x : FCfg) (h : A
         cases hb : base { x with called := x.called + 1, arm := (armStep hk x.arm).2 } with
         | mk y e =>
           cases e with
-          | some e => left; exact ⟨y, e, rfl, rfl⟩
-          | none => right; exact ⟨y, { y with called := y.called - 1, arm := none, fired := true }, rfl, rfl, rfl, rfl, rfl, rfl⟩
+          | some e => left; exact ⟨y, { y with called := x.called }, e, rfl, rfl, ⟨rfl, rfl, rfl⟩, rfl⟩
+          | none => right; exact ⟨y, { y with called := x.called, arm := none, fired := true }, rfl, rfl, rfl, rfl, rfl, rfl⟩
 
 end FP
 end PMF
